@@ -63,7 +63,10 @@ func (w *world) storeTips() (ft, bt int, tip int) {
 	return int(fh), int(bh), w.hid(*th)
 }
 
-var liarModes = []string{"omit-c", "omit-c", "extra-c", "opret-c", "adv-true", "adv-silent", "zero"}
+var liarModes = []string{"omit-c", "omitall-c", "omitin-c", "extra-c", "opret-c", "adv-true", "adv-silent", "zero"}
+
+// modes of colluding liars: several peers serve the SAME self-consistent false filter
+var colludeModes = []string{"omit-c", "omit-c", "omitall-c", "omitin-c", "extra-c"}
 
 // planRound chooses behaviours for np peers for the batch start..stop.
 func (w *world) planRound(np, start, stop, tip int, forced []string, forcedD []int) []*rpeer {
@@ -86,6 +89,25 @@ func (w *world) planRound(np, start, stop, tip int, forced []string, forcedD []i
 	stopHash := chainhash.Hash{}
 	if stop < len(w.chain) && stop >= 0 {
 		stopHash = w.chain[stop].hash
+	}
+	if forced == nil && np >= 3 && n > 0 && r.Intn(4) == 0 {
+		// collusion: a majority of liars with one and the same false filter
+		// against a minority of honest peers, in a random order
+		mode := colludeModes[r.Intn(len(colludeModes))]
+		nl := np/2 + 1
+		if r.Intn(4) == 0 {
+			nl = np - np/2 - 1 + r.Intn(2) // sometimes the liars are not the majority
+		}
+		forced = make([]string, np)
+		for i, k := range r.Perm(np) {
+			if i < nl {
+				forced[k] = mode
+			} else {
+				forced[k] = "honest"
+			}
+		}
+		D = D[:1]
+		w.t.Hit("round.collusion." + mode)
 	}
 	var ps []*rpeer
 	for p := 1; p <= np; p++ {
@@ -143,7 +165,13 @@ func (w *world) planRound(np, start, stop, tip int, forced []string, forcedD []i
 				b := w.chain[h]
 				switch mode {
 				case "omit-c":
-					fids[h-start] = w.variant(b, "omit")
+					fids[h-start] = w.variant(b, "omit-some")
+					rp.served[h] = fids[h-start]
+				case "omitall-c":
+					fids[h-start] = w.variant(b, "omit-all")
+					rp.served[h] = fids[h-start]
+				case "omitin-c":
+					fids[h-start] = w.variant(b, "omit-in")
 					rp.served[h] = fids[h-start]
 				case "extra-c":
 					fids[h-start] = w.variant(b, "extra")
@@ -215,6 +243,7 @@ func (w *world) planRound(np, start, stop, tip int, forced []string, forcedD []i
 			if !seen[f] {
 				seen[f] = true
 				w.t.Line("vf %d %d %s => -", h, f, w.verifyRow(f, w.chain[h]))
+				w.t.Line("gt %d %d %s => -", h, f, w.gtRow(f, w.chain[h]))
 			}
 		}
 		if r.Intn(12) == 0 {
